@@ -178,30 +178,30 @@ impl AffineForm {
                     lhs.merge(Self::from_exp(rhs)?, -1.0);
                     Some(lhs)
                 }
+                //a factor is a coefficient when it has no variable part, whether it is
+                //written as one number or as an expression of constants such as `2 * 3`,
+                //which is what expanded data (`A[i] * (i + 1)`) compiles to
                 BinOp::Mul => {
-                    if let Exp::Number(coefficient) = &**lhs {
-                        let mut rhs = Self::from_exp(rhs)?;
-                        rhs.scale(*coefficient);
+                    let mut lhs = Self::from_exp(lhs)?;
+                    let mut rhs = Self::from_exp(rhs)?;
+                    if lhs.coefficients.is_empty() {
+                        rhs.scale(lhs.constant);
                         Some(rhs)
-                    } else if let Exp::Number(coefficient) = &**rhs {
-                        let mut lhs = Self::from_exp(lhs)?;
-                        lhs.scale(*coefficient);
+                    } else if rhs.coefficients.is_empty() {
+                        lhs.scale(rhs.constant);
                         Some(lhs)
                     } else {
                         None
                     }
                 }
                 BinOp::Div => {
-                    if let Exp::Number(divisor) = &**rhs {
-                        if *divisor == 0.0 {
-                            None
-                        } else {
-                            let mut lhs = Self::from_exp(lhs)?;
-                            lhs.scale(1.0 / divisor);
-                            Some(lhs)
-                        }
-                    } else {
+                    let rhs = Self::from_exp(rhs)?;
+                    if !rhs.coefficients.is_empty() || rhs.constant == 0.0 {
                         None
+                    } else {
+                        let mut lhs = Self::from_exp(lhs)?;
+                        lhs.scale(1.0 / rhs.constant);
+                        Some(lhs)
                     }
                 }
                 BinOp::And | BinOp::Or | BinOp::Xor | BinOp::Implies | BinOp::Iff => None,
